@@ -193,6 +193,20 @@ CLAIMED["C17"] = dict(
     technique="Lean 4 conversion model + retraction theorem + differential check of both typed routes in five formats",
     design="§5 C17")
 
+CLAIMED["C11"] = dict(
+    text="A reference validator in Lean 4, written from the specification, for the unambiguous core of JSON Schema (type, enum, const, numeric and length "
+         "bounds, multipleOf, uniqueItems, prefixItems/items, contains with min/maxContains, properties/additionalProperties, required, min/maxProperties, "
+         "propertyNames, dependentRequired, allOf/anyOf/oneOf/not, if/then/else, $ref into $defs, unevaluatedProperties/unevaluatedItems with annotation flow). "
+         "Proved about it: boolean schemas, not inverts, double negation, allOf = conjunction, anyOf = disjunction, oneOf = exactly one, if/then/else, "
+         "type-specific keywords ignore other types, exclusive bounds reject the bound, unevaluatedProperties:false alone admits only empty objects. Tie: "
+         "generated (dialect, schema, instance) triples for Drafts 4/6/7/2019-09/2020-12 in each dialect's spelling; jsoncons' verdict judged against the "
+         "reference; is_valid, reporter, throwing and json_visitor forms, reuse of the compiled schema and key-sorted vs insertion-ordered documents "
+         "cross-checked in the harness.",
+    note="Partial: integers only (no doubles, no big numbers beyond uint64), no pattern/patternProperties/format/$anchor/$dynamicRef/remote $ref; $ref is "
+         "acyclic and inlined for the reference. jsoncons' validator is not modelled, it is compared. D63 (multipleOf through double) found and fixed.",
+    technique="Lean 4 reference validator + theorems (logical laws of the applicators) + differential verdicts over five dialects",
+    design="§5 C11")
+
 ALL = ["C%02d" % i for i in range(1, 21)]
 NOT_YET = "not claimed yet: the Lean model, theorems and correspondence harness for this property are still being built (see DESIGN.md §8 staging)"
 
